@@ -1,0 +1,54 @@
+//go:build verif
+
+package lexer
+
+import (
+	"encoding/json"
+	"os"
+	"sync"
+)
+
+// VerifLexState is the lexer's private mode state (build tag "verif").
+type VerifLexState struct {
+	Pos         int  `json:"pos"`
+	IsHTML      bool `json:"html"`
+	IsDirective bool `json:"dir"`
+	Parens      int  `json:"parens"`
+	Braces      int  `json:"braces"`
+}
+
+// VerifState returns the lexer's private mode state.
+func (l *Lexer) VerifState() VerifLexState {
+	return VerifLexState{
+		Pos:         l.pos,
+		IsHTML:      l.isHTML,
+		IsDirective: l.isDirective,
+		Parens:      l.countDirectiveParentheses,
+		Braces:      l.countCurlyBraces,
+	}
+}
+
+// When VERIF_LEX_CORPUS names a file, every input handed to New is appended
+// to it as one JSON line (a list of byte values); used to collect the inputs
+// of the repository's own tests.
+var verifCorpusMu sync.Mutex
+
+func verifInput(input string) {
+	path := os.Getenv("VERIF_LEX_CORPUS")
+	if path == "" {
+		return
+	}
+	verifCorpusMu.Lock()
+	defer verifCorpusMu.Unlock()
+	f, err := os.OpenFile(path, os.O_APPEND|os.O_CREATE|os.O_WRONLY, 0o644)
+	if err != nil {
+		return
+	}
+	defer f.Close()
+	codes := make([]int, len(input))
+	for i := 0; i < len(input); i++ {
+		codes[i] = int(input[i])
+	}
+	line, _ := json.Marshal(codes)
+	f.Write(append(line, '\n'))
+}
